@@ -167,10 +167,23 @@ func openAPIRequest(rpc *spec.RPC, op *oaOperation, req proto.Message, hdrs [][2
 				}
 			}
 			fd := fds.ByName(protoreflect.Name(field))
-			if fd == nil || fd.IsList() {
+			if fd == nil {
 				continue
 			}
 			urlBound[field] = true
+			if fd.IsList() {
+				// repeated field: one name=value pair per element (OpenAPI default for arrays,
+				// style=form explode=true). The document's item type is not C03's subject
+				// (placement is), so the elements are sent whatever type it declares.
+				l := m.Get(fd).List()
+				for i := 0; i < l.Len(); i++ {
+					q.Add(p.Name, ScalarString(fd, l.Get(i)))
+				}
+				if l.Len() > 0 {
+					qnames = append(qnames, p.Name)
+				}
+				continue
+			}
 			if m.Has(fd) || p.Required {
 				q.Set(p.Name, ScalarString(fd, m.Get(fd)))
 				qnames = append(qnames, p.Name)
@@ -181,7 +194,9 @@ func openAPIRequest(rpc *spec.RPC, op *oaOperation, req proto.Message, hdrs [][2
 		sort.Strings(qnames)
 		var parts []string
 		for _, n := range qnames {
-			parts = append(parts, url.QueryEscape(n)+"="+url.QueryEscape(q.Get(n)))
+			for _, v := range q[n] {
+				parts = append(parts, url.QueryEscape(n)+"="+url.QueryEscape(v))
+			}
 		}
 		path += "?" + strings.Join(parts, "&")
 	}
